@@ -569,3 +569,18 @@ def path_subst(expr, env):
                 return _clone_expr(env[node.id])
             return node
     return ast.fix_missing_locations(T().visit(_clone_expr(expr)))
+
+
+def at_least_once(stmts):
+    """The statements with every `for` loop read as exactly one iteration (header expression, then the body): for rules about
+    what happens for a member of a collection known to be non-empty."""
+    out = []
+    for st in stmts:
+        if isinstance(st, (ast.For, ast.AsyncFor)):
+            out.append(ast.copy_location(ast.Expr(value=st.iter), st))
+            out.extend(at_least_once(st.body))
+        elif isinstance(st, ast.If):
+            out.append(ast.copy_location(ast.If(test=st.test, body=at_least_once(st.body) or [ast.Pass()], orelse=at_least_once(st.orelse)), st))
+        else:
+            out.append(st)
+    return out
